@@ -352,6 +352,14 @@ func expandBorder(baseURL string, _ pr.Shortand, tokens []Token) (out expandedPr
 		}
 		out = append(out, props...)
 	}
+	// "The border shorthand also resets border-image to its initial value."
+	var reset pr.DeclaredValue = pr.Initial
+	if getSingleKeyword(tokens) == "inherit" {
+		reset = pr.Inherit
+	}
+	for prop := pr.PBorderImageSource; prop <= pr.PBorderImageRepeat; prop++ {
+		out = append(out, namedProperty{name: pr.PropKey{KnownProp: prop}, property: reset})
+	}
 	return out, nil
 }
 
